@@ -16,7 +16,7 @@ PROPS = {
         "thorough_wall": 2400,
         # (a share of sessions mixes scope registrations with insert_at at
         # the same place: registration order across the two kinds of request)
-        "params": {"other_sect_p": 0.06, "isa_weights": [75, 15, 10], "scope_session_p": 0.12, "constraints_p": 0.1, "extern_p": 0.08, "align_fill_p": 0.5},
+        "params": {"syscall_p": 0.05, "other_sect_p": 0.06, "isa_weights": [75, 15, 10], "scope_session_p": 0.12, "constraints_p": 0.1, "extern_p": 0.08, "align_fill_p": 0.5},
         "rule": "seeded scenarios (random module + 1-3 sessions of insert/replace/delete requests) executed against the real "
         "library and the listing model; distinct = distinct (module, sessions) digest; non-trivial = at least one "
         "modification was registered",
@@ -33,7 +33,7 @@ PROPS = {
         "thorough_runs": 300000,
         "quick_wall": 240,
         "thorough_wall": 2400,
-        "params": {"zero_hist_p": 0.06, "other_sect_p": 0.06, "isa_weights": [75, 15, 10], "end_label_p": 0.45, "delblock_p": 0.3, "constraints_p": 0.1, "extern_p": 0.08},
+        "params": {"syscall_p": 0.05, "zero_hist_p": 0.06, "other_sect_p": 0.06, "isa_weights": [75, 15, 10], "end_label_p": 0.45, "delblock_p": 0.3, "constraints_p": 0.1, "extern_p": 0.08},
         "rule": "seeded scenarios biased to several start/at_end labels per block and whole-block deletions; distinct = "
         "distinct (module, sessions) digest; non-trivial = at least one modification was registered",
         "real_vs_stub": RW_REAL,
@@ -48,7 +48,7 @@ PROPS["C03"] = {
     "thorough_runs": 300000,
     "quick_wall": 240,
     "thorough_wall": 2400,
-    "params": {"zero_hist_p": 0.06, "isa_weights": [75, 15, 10], "constraints_p": 0.1, "extern_p": 0.1},
+    "params": {"syscall_p": 0.05, "zero_hist_p": 0.06, "isa_weights": [75, 15, 10], "constraints_p": 0.1, "extern_p": 0.1},
     "rule": "seeded scenarios (random module with per-instruction-consistent CFG + 1-3 sessions of edits with patches made of "
     "plain/jmp/jcc/call/ret/indirect instructions and labels); distinct = distinct (module, sessions) digest; "
     "non-trivial = at least one modification was registered",
@@ -81,7 +81,7 @@ PROPS["C05"] = {
     "thorough_runs": 75000,
     "quick_wall": 240,
     "thorough_wall": 2400,
-    "params": {"allow_target_on_data": True, "zero_hist_p": 0.06, "other_sect_p": 0.06, "isa_weights": [75, 15, 10], "annot_p": 0.2, "allow_fall_off": True, "delblock_p": 0.25, "extern_p": 0.1, "patch_align_p": 0.1},
+    "params": {"syscall_p": 0.05, "allow_target_on_data": True, "zero_hist_p": 0.06, "other_sect_p": 0.06, "isa_weights": [75, 15, 10], "annot_p": 0.2, "allow_fall_off": True, "delblock_p": 0.25, "extern_p": 0.1, "patch_align_p": 0.1},
     "rule": "seeded scenarios as for C01; after every session the whole-IR validator (blocks in intervals, no overlap of new blocks, "
     "every node in CFG / symbols / expressions / any aux table is in the module, zero-sized blocks only in documented cases, "
     "addresses, protobuf round trip); then, per scenario with N patch callbacks, N more executions from a fresh build with an "
@@ -104,7 +104,7 @@ PROPS["C06"] = {
     "thorough_runs": 450000,
     "quick_wall": 240,
     "thorough_wall": 2400,
-    "params": {"allow_target_on_data": True, "zero_hist_p": 0.06, "other_sect_p": 0.06, "isa_weights": [75, 15, 10], "delblock_p": 0.35, "insfn_p": 0.2, "constraints_p": 0.1, "extern_p": 0.08},
+    "params": {"syscall_p": 0.05, "allow_target_on_data": True, "zero_hist_p": 0.06, "other_sect_p": 0.06, "isa_weights": [75, 15, 10], "delblock_p": 0.35, "insfn_p": 0.2, "constraints_p": 0.1, "extern_p": 0.08},
     "rule": "seeded scenarios with 0-4 functions (adjacent, interleaved with function-less code and data), edits at function "
     "boundaries, whole-function deletion, deletion of entry blocks and of the promoted block, inserted functions; distinct = "
     "(module, sessions) digest; non-trivial = at least one modification registered",
@@ -119,7 +119,7 @@ PROPS["C07"] = {
     "thorough_runs": 225000,
     "quick_wall": 240,
     "thorough_wall": 2400,
-    "params": {"isa_weights": [75, 15, 10], "scope_session_p": 0.85, "main_p": 0.4, "constraints_p": 0.1, "scope_insfn_p": 0.15},
+    "params": {"syscall_p": 0.05, "isa_weights": [75, 15, 10], "scope_session_p": 0.85, "main_p": 0.4, "constraints_p": 0.1, "scope_insfn_p": 0.15},
     "rule": "seeded scenarios whose sessions register 1-4 scope-based insertions (AllBlocksScope / SingleBlockScope / "
     "AllFunctionsScope x ENTRY/EXIT/ANYWHERE x literal / regex / MAIN_NAME / ENTRYPOINT_NAME filters) plus insert_at at specific "
     "places, through a bare RewritingContext or a PassManager with 1-3 passes, with and without function tables; instrumented "
@@ -161,7 +161,7 @@ PROPS["C09"] = {
     "thorough_runs": 150000,
     "quick_wall": 240,
     "thorough_wall": 2400,
-    "params": {"zero_hist_p": 0.06, "isa_weights": [75, 15, 10], "insfn_p": 0.0, "align_p": 0.0, "multi_unit": 0.1, "delblock_p": 0.3},
+    "params": {"syscall_p": 0.05, "zero_hist_p": 0.06, "isa_weights": [75, 15, 10], "insfn_p": 0.0, "align_p": 0.0, "multi_unit": 0.1, "delblock_p": 0.3},
     "rule": "seeded scenarios; the last session is executed twice from a fresh build: all modifications in one apply(), and one "
     "modification per apply() in the engine's order (positions re-derived through token identities); the UUID-free canonical "
     "dumps (temporary-label suffixes normalised) must be equal and an abort in one but not the other is a violation; in "
@@ -204,7 +204,7 @@ PROPS["C11"] = {
     "thorough_runs": 45000,
     "quick_wall": 300,
     "thorough_wall": 2400,
-    "params": {"isa_weights": [75, 15, 10], "k": 4, "insfn_p": 0.05, "constraints_p": 0.3, "repeat_p": 0.08, "no_temp_refs": True, "extern_p": 0.1, "shared_block_p": 0.15},
+    "params": {"syscall_p": 0.05, "isa_weights": [75, 15, 10], "k": 4, "insfn_p": 0.05, "constraints_p": 0.3, "repeat_p": 0.08, "no_temp_refs": True, "extern_p": 0.1, "shared_block_p": 0.15},
     "thorough_params": {"k": 8},
     "rule": "each seeded scenario is executed under K schedules (quick K=4, thorough K=8): fresh UUID stream, fresh node-hash salt "
     "(= iteration order of every set/dict of gtirb nodes), another PYTHONHASHSEED (helper interpreters), and a permuted "
